@@ -21,6 +21,15 @@ def _compile(src: str) -> ast.AST:
     if len(mod.body) != 1:
         raise ValueError(f"pattern must be a single statement/expression: {src}")
     st = mod.body[0]
+    # patterns are written in ordinary Python and brought into the same canonical spelling as the code (canon.py C7)
+    from . import canon
+
+    st = canon.Canon(set())._simple(st)
+    if isinstance(st, ast.If):
+        t, fl = canon._positive(st.test)
+        if fl:
+            st = ast.If(t, st.orelse or [ast.Pass()], [] if canon._is_pass(st.body) else st.body)
+        ast.fix_missing_locations(st)
     if isinstance(st, ast.Expr):
         return st.value
     return st
